@@ -41,9 +41,25 @@ FIELDS = ['g', 'h', 'k']                  # besides the guaranteed visible numbe
 
 BKINDS = ['local', 'localfn', 'param', 'method-param', 'objlocal', 'arrcomp-var',
           'objcomp-var', 'objcomp-local', 'object']   # 'object' = self / $ / super
-PKINDS = ['local-value', 'local-body', 'default-arg', 'func-body', 'objlocal-value',
-          'field-value', 'field-name', 'object-assert', 'comp-clause', 'comp-body',
-          'dead-branch', 'call-arg']
+# who owns a parameter list: an anonymous function, the function sugar of a local / object local /
+# object-comprehension local (`local f(x) = e`), or a method field (`f(x): e`)
+OWNERS = ['anon', 'local-sugar', 'objlocal-sugar', 'objcomp-sugar', 'method']
+PKINDS = ['local-value', 'local-body', 'objlocal-value', 'field-value', 'field-name', 'object-assert',
+          'comp-clause', 'comp-body', 'dead-branch', 'call-arg'] + \
+         [o + '-default' for o in OWNERS] + [o + '-body' for o in OWNERS]
+# binder syntax form of the referenced variable: plain bind / function-sugar bind (the function name
+# and its parameters) / method field (its parameters)
+ROWS = [('local', 'plain'), ('localfn', 'sugar'), ('param', 'plain'), ('method-param', 'sugar'),
+        ('method-param', 'method'), ('objlocal', 'plain'), ('objlocal', 'sugar'), ('objcomp-local', 'plain'),
+        ('objcomp-local', 'sugar'), ('arrcomp-var', 'plain'), ('objcomp-var', 'plain'), ('object', 'plain')]
+
+
+def form_of(entry):
+    if len(entry) > 3:
+        return entry[3]
+    if entry[0] == 'localfn' or (entry[0] in ('objlocal', 'objcomp-local') and entry[1] == 'fn'):
+        return 'sugar'
+    return 'plain'
 FKINDS = ['unbound', 'self', 'dollar', 'super', 'rep-local', 'rep-param', 'rep-field',
           'rep-objlocal', 'pos-after-named', 'import-computed', 'import-textblock']
 
@@ -99,8 +115,8 @@ class Gen(object):
         self.sites.append((ctx.pos, ctx.in_obj, ctx.live, what, any(n not in ctx.scope for n in ctx.near)))
         return k in self.faults
 
-    def ref(self, ctx, bkind):
-        self.refs[(bkind, ctx.pos)] += 1
+    def ref(self, ctx, bkind, form='plain'):
+        self.refs[(bkind, form, ctx.pos)] += 1
 
     def fresh(self):
         self.uid += 1
@@ -232,11 +248,11 @@ class Gen(object):
 
     # ---- variables
     def var(self, ctx, typ):
-        c = [n for n, (bk, t, ok) in sorted(ctx.scope.items()) if t == typ and (ok or not ctx.live)]
+        c = [n for n, ent in sorted(ctx.scope.items()) if ent[1] == typ and (ent[2] or not ctx.live)]
         if not c:
             return None
         n = self.pick(c)
-        self.ref(ctx, ctx.scope[n][0])
+        self.ref(ctx, ctx.scope[n][0], form_of(ctx.scope[n]))
         return n
 
     def deeper(self, ctx):
@@ -254,6 +270,10 @@ class Gen(object):
     def g_num(self, ctx):
         rng = self.rng
         if self.leafy(ctx):
+            if self.chance(0.2):
+                f = self.var(ctx, 'fn')
+                if f:
+                    return f + '(' + self.pick(['1', '2']) + ')'
             v = self.var(ctx, 'num') if self.chance(0.7) else None
             return v if v else self.pick(['0', '1', '2', '3.5', '1e2', '7'])
         r = rng.randrange(100)
@@ -367,7 +387,7 @@ class Gen(object):
         v = self.var(ctx, 'fn') if self.chance(0.5) else None
         if v:
             return v
-        return '(function' + self.params_body(ctx, 'param', 1)[0] + ')'
+        return '(function' + self.params_body(ctx, 'anon', 1)[0] + ')'
 
     def g_obj(self, ctx):
         E = self.expr
@@ -421,7 +441,7 @@ class Gen(object):
             live = ctx.live and used
             c = ctx.bind(vis, pos='local-value' if live else 'dead-branch', live=live)
             if kinds[i] == 'fn':
-                pb, _ = self.params_body(c, 'method-param', 1)
+                pb, _ = self.params_body(c, 'local-sugar', 1)
                 parts.append([n, None, pb])
             else:
                 parts.append([n, None, ' = ' + self.expr(c, kinds[i])])
@@ -472,14 +492,16 @@ class Gen(object):
             i += 1
         raise ValueError('unbalanced parameter list: ' + s)
 
-    def params_body(self, ctx, bkind, nreq):
+    def params_body(self, ctx, owner, nreq):
         """'(p1, p2 = d2, ...) body' of a number-valued function with nreq required number
         parameters; returns (text, names)"""
         rng = self.rng
         nopt = rng.randint(0, 2)
         ns = self.names(nreq + nopt)
         faulted = self.site(ctx, 'param-group')
-        vis = {n: (bkind, 'num', True) for n in ns}
+        bkind = 'param' if owner == 'anon' else 'method-param'
+        form = 'plain' if owner == 'anon' else ('method' if owner == 'method' else 'sugar')
+        vis = {n: (bkind, 'num', True, form) for n in ns}
         ps = []
         dup = rng.randrange(len(ns)) if faulted else None
         for i, n in enumerate(ns):
@@ -488,15 +510,15 @@ class Gen(object):
                 ps.append(nm)
             else:
                 # default arguments see every parameter; evaluated only when the argument is omitted
-                others = {m: (bkind, 'num', j < i) for j, m in enumerate(ns)}
-                c = ctx.bind(others, pos='default-arg')
+                others = {m: (bkind, 'num', j < i, form) for j, m in enumerate(ns)}
+                c = ctx.bind(others, pos=owner + '-default')
                 ps.append(nm + ' = ' + self.expr(c, 'num'))
         if faulted:
             n = ns[dup]
             ps.insert(rng.randint(dup + 1, len(ps)), M1 + n + M2 + self.pick(['', ' = 0']))
             self.injected.append({'kind': 'rep-param', 'pos': ctx.pos, 'live': ctx.live, 'in_obj': ctx.in_obj,
                                   'near': None, 'name': n, 'variant': 'RepeatedParamName', 'inplace': True})
-        body = self.expr(ctx.bind(vis, pos='func-body'), 'num')
+        body = self.expr(ctx.bind(vis, pos=owner + '-body'), 'num')
         return '(' + ', '.join(ps) + ')' + self.ws() + body, ns
 
     def call(self, ctx):
@@ -505,11 +527,11 @@ class Gen(object):
         c = ctx.but(pos='call-arg')
         f = self.var(ctx, 'fn')
         ts = ' tailstrict' if self.chance(0.1) else ''
-        if f and self.chance(0.6):
+        if f and self.chance(0.75):
             return f + '(' + E(c, 'num') + ')' + ts
         # immediate function: we know the parameter names, so named arguments can be used
         nreq = self.rng.randint(1, 2)
-        pb, ns = self.params_body(ctx, 'param', nreq)
+        pb, ns = self.params_body(ctx, 'anon', nreq)
         args = []
         style = self.rng.random()
         for i in range(nreq):
@@ -566,7 +588,7 @@ class Gen(object):
                    E(ctx.bind({n: ('local', 'num', True)}, pos='local-body'), 'num') + ')'
             near = {n: 'local'}
         elif r == 1:
-            left = '(function(' + n + ') ' + E(ctx.bind({n: ('param', 'num', True)}, pos='func-body'), 'num') + ')(' + \
+            left = '(function(' + n + ') ' + E(ctx.bind({n: ('param', 'num', True)}, pos='anon-body'), 'num') + ')(' + \
                    E(ctx.but(pos='call-arg'), 'num') + ')'
             near = {n: 'param'}
         else:
@@ -594,7 +616,7 @@ class Gen(object):
         if r == 3:
             n, m = self.names(2)
             return '(function(' + n + ', ' + m + ' = ' + E(d.bind({n: ('param', 'num', True), m: ('param', 'num', True)}), 'num') + ') ' + \
-                   E(ctx.bind({n: ('param', typ, True), m: ('param', 'num', True)}, pos='func-body'), typ) + ')(' + \
+                   E(ctx.bind({n: ('param', typ, True), m: ('param', 'num', True)}, pos='anon-body'), typ) + ')(' + \
                    E(ctx.but(pos='call-arg'), typ) + ', 5)'
         if r == 4:
             return '(if false then error ' + E(d, 'str') + ' else ' + E(ctx, typ) + ')'
@@ -624,36 +646,49 @@ class Gen(object):
         return '[' + self.expr(c.but(pos='comp-body'), 'num') + ' ' + st + ']'
 
     def objcomp(self, ctx):
-        """{ [locals,] [key]: value [, locals] for ... }: key sees the clause variables but
-        neither the locals nor the new self; the value sees everything"""
+        """{ [locals,] [key]: value [, locals] for ... }: key and clauses see the clause variables but
+        neither the locals nor the new self; locals (value style and function sugar, before and after
+        the field, referring to each other, to self / $ / super) and the value see everything"""
         E = self.expr
         rng = self.rng
         st, c = self.specs(ctx, 'objcomp-var')
         v0 = st.split(' ')[1]
-        nl = rng.randint(0, 2)
+        nl = rng.choice([0, 1, 2, 2, 3])
         ls = [n for n in self.names(nl + 1) if n != v0][:nl]
+        lk = [self.pick(['num', 'num', 'fn', 'fn', 'arr']) for _ in ls]
         faulted = self.site(ctx, 'objcomp-local-group') if ls else False
-        lvis = {n: ('objcomp-local', 'num', True) for n in ls}
-        inner = c.bind(lvis, in_obj=True, self_f=False, has_super=False, in_f=False)
-        ltx = []
-        for i, n in enumerate(ls):
-            vis = {m: ('objcomp-local', 'num', j > i) for j, m in enumerate(ls)}
-            ltx.append([n, E(inner.bind(vis, pos='objlocal-value'), 'num')])
+        inner0 = c.but(in_obj=True, self_f=False, has_super=False, in_f=False)
+        order = list(range(len(ls)))
+        rng.shuffle(order)      # on a live path a local uses only locals later in `order` (no cycles)
         dup = rng.randrange(len(ls)) if faulted else None
-        ltxt = ['local ' + ((M3 + n + M4) if dup == i else n) + ' = ' + t for i, (n, t) in enumerate(ltx)]
+        ltxt = []
+        for i, n in enumerate(ls):
+            vis = {m: ('objcomp-local', lk[j], order[j] > order[i]) for j, m in enumerate(ls)}
+            lc = inner0.bind(vis, pos='objlocal-value')
+            nm = (M3 + n + M4) if dup == i else n
+            if lk[i] == 'fn':
+                pb, _ = self.params_body(lc, 'objcomp-sugar', 1)
+                close = self.split_params(pb)
+                ltxt.append('local ' + nm + pb[:close + 1] + ' = ' + pb[close + 1:])
+            else:
+                ltxt.append('local ' + nm + ' = ' + E(lc, lk[i]))
         if faulted:
             n = ls[dup]
-            ltxt.insert(rng.randint(dup + 1, len(ltxt)), 'local ' + M1 + n + M2 + ' = 0')
+            ltxt.insert(rng.randint(dup + 1, len(ltxt)), 'local ' + M1 + n + M2 + self.pick([' = 0', '(p) = p']))
             self.injected.append({'kind': 'rep-objlocal', 'pos': ctx.pos, 'live': ctx.live, 'in_obj': ctx.in_obj,
                                   'near': None, 'name': n, 'variant': 'RepeatedLocalName', 'inplace': True})
+        inner = inner0.bind({n: ('objcomp-local', lk[i], True) for i, n in enumerate(ls)})
         cut = rng.randint(0, len(ltxt))
         key = '("k" + ' + v0 + ' + "_" + ' + E(c.but(pos='field-name', near=dict(c.near, **{n: 'objcomp-local' for n in ls})), 'num') + ')'
-        if self.chance(0.3):
+        r = rng.random()
+        if r < 0.25:
             val = 'std.length(' + self.arrcomp(self.deeper(inner.but(pos='comp-body'))) + ')'
+        elif r < 0.4:
+            # an ordinary object nested in the comprehension
+            val = self.objlit(self.deeper(inner.but(pos='comp-body')), False) + '.f'
         else:
             val = E(inner.but(pos='comp-body'), 'num')
-        # the clauses do not see the object locals either
-        body = ', '.join(ltxt[:cut] + ['[' + key + ']: ' + val] + ltxt[cut:])
+        body = ', '.join(ltxt[:cut] + ['[' + key + ']' + self.pick([': ', ': ', ': ', '+: ']) + val] + ltxt[cut:])
         return '{' + body + ' ' + st + '}'
 
     def objlit(self, ctx, has_super):
@@ -677,7 +712,7 @@ class Gen(object):
             c = inner0.bind(vis, pos='objlocal-value')
             nm = (M3 + n + M4) if ldup == i else n
             if lk[i] == 'fn':
-                pb, _ = self.params_body(c, 'method-param', 1)
+                pb, _ = self.params_body(c, 'objlocal-sugar', 1)
                 close = self.split_params(pb)
                 members.append(('L', 'local ' + nm + pb[:close + 1] + ' = ' + pb[close + 1:]))
             else:
@@ -705,11 +740,13 @@ class Gen(object):
                     anyt = self.pick(['num', 'arr', 'obj', 'fn', 'objc'])
                     members.append(('F', nm + ':: ' + E(inner.but(pos='field-value', live=False), anyt)))
                 elif r < 0.8:
-                    pb, _ = self.params_body(inner.but(live=False), 'method-param', 1)
+                    pb, _ = self.params_body(inner.but(live=False), 'method', 1)
                     close = self.split_params(pb)
                     members.append(('F', nm + pb[:close + 1] + ':: ' + pb[close + 1:]))
-                else:
+                elif r < 0.9:
                     members.append(('F', nm + ': ' + E(inner.but(pos='field-value'), 'obj')))
+                else:
+                    members.append(('F', nm + ': std.length(' + self.objcomp(self.deeper(inner.but(pos='field-value'))) + ')'))
         if ffaulted:
             fn = fields[fdup]
             members.append(('F', M1 + q(fn) + M2 + self.pick([': 0', ':: 0', '(p): 0', '+: 0'])))
@@ -979,17 +1016,19 @@ def matrices(run, progs):
     for p in progs:
         if p.get('nfaults') == 0:
             refs.update(p['refs'])
-    ref_m = {b: {q: refs.get((b, q), 0) for q in PKINDS} for b in BKINDS}
+    rows = ['%s/%s' % r for r in ROWS]
+    ref_m = {'%s/%s' % (b, f): {q: refs.get((b, f, q), 0) for q in PKINDS} for (b, f) in ROWS}
     fault_m = {f: {q: run.hist.get('fault:%s@%s' % (f, q), 0) for q in PKINDS + ['root']} for f in FKINDS}
     near_m = {b: {q: run.hist.get('nearmiss:%s@%s' % (b, q), 0) for q in PKINDS} for b in BKINDS}
-    missing_ref = ['%s x %s' % (b, q) for b in BKINDS for q in PKINDS if ref_m[b][q] == 0]
-    for b in BKINDS:
+    missing_ref = ['%s x %s' % (r, q) for r in rows for q in PKINDS if ref_m[r][q] == 0]
+    for r in rows:
         for q in PKINDS:
-            if ref_m[b][q]:
-                run.nontrivial.add(('ref', b, q))
-    run.extra['matrix_reference_binderkind_x_positionkind'] = ref_m
+            if ref_m[r][q]:
+                run.nontrivial.add(('ref', r, q))
+    run.extra['matrix_reference_binderkind_form_x_positionkind'] = ref_m
     run.extra['matrix_fault_kind_x_positionkind'] = fault_m
     run.extra['matrix_out_of_scope_binderkind_x_positionkind'] = near_m
+    run.extra['matrix_reference_cells'] = len(rows) * len(PKINDS)
     run.extra['matrix_reference_uncovered'] = missing_ref
     return missing_ref
 
@@ -1011,7 +1050,7 @@ def check(run):
     model_exe = vlib.build_model('analyze')
 
     quick = run.tier == 'quick'
-    n_free, n_one, n_multi = (700, 1600, 400) if quick else (12000, 40000, 8000)
+    n_free, n_one, n_multi = (1000, 1600, 400) if quick else (30000, 40000, 8000)
     progs = corpus_programs()
     run.count('corpus', 0)
     gen = []
@@ -1032,9 +1071,9 @@ def check(run):
     missing = matrices(run, gen)
     run.count('reference-matrix-uncovered-cells', len(missing))
     if not quick:
-        # the generator is random: one or two of the 108 cells may stay empty for some seeds; they are listed in evidence
-        run.add_obligation('coverage: at most 2 of the 108 (binder kind x position kind) reference cells unexercised',
-                           len(missing) <= 2, ', '.join(missing[:12]))
+        # the generator is random: a few of the 240 cells may stay empty for some seeds; they are listed in evidence
+        run.add_obligation('coverage: at most 3 of the 240 (binder kind/syntax form x position kind) reference cells unexercised',
+                           len(missing) <= 3, ', '.join(missing[:12]))
 
 
 def replay(run, path):
